@@ -41,6 +41,8 @@ def signature(rec):
         return "persist-error-not-returned-to-batch"
     if v.startswith("bad:retry-does-not-cover") or v.startswith("bad:retried-batch-lost"):
         return "retry-does-not-cover-applied-batches"
+    if v.startswith("bad:handles-not-released-exactly-once"):
+        return "loadsnapshot-error-path-leaks-loaded-segments"
     if v.startswith("bad:hang"):
         return "hang-after-fault"
     if v.startswith("bad:acked-batch-lost"):
